@@ -279,6 +279,9 @@ func ptrKeyFor(elem types.Type) string {
 	return typeKey(elem)
 }
 
+// maxCells: no object holds more than 2^48 cells (amd64 user address space is 2^47 bytes).
+const maxCells = "281474976710656"
+
 // typeFacts returns the facts every value of the type satisfies.
 func (vc *VC) typeFacts(v SVal) string {
 	var fs []string
@@ -290,9 +293,9 @@ func (vc *VC) typeFacts(v SVal) string {
 		case KSlice:
 			fs = append(fs, le("0", v.obj()), le("0", v.off()), le("0", v.ln()), le(v.ln(), v.cp()),
 				implies(eq(v.obj(), "0"), and(eq(v.ln(), "0"), eq(v.cp(), "0"), eq(v.off(), "0"))),
-				le(add(v.off(), v.cp()), "4611686018427387904"))
+				le(add(v.off(), v.cp()), maxCells))
 		case KString:
-			fs = append(fs, le("0", v.obj()), le("0", v.off()), le("0", v.ln()), le(add(v.off(), v.ln()), "4611686018427387904"))
+			fs = append(fs, le("0", v.obj()), le("0", v.off()), le("0", v.ln()), le(add(v.off(), v.ln()), maxCells))
 		case KPtr:
 			fs = append(fs, le("0", v.obj()), le("0", v.off()))
 		case KRef:
